@@ -18,7 +18,7 @@ use x25519_dalek::{PublicKey, StaticSecret};
 pub const CHECK: Check = Check { id: "C07", level: "exploration", flavours: &["prod"], run, replay };
 
 const RULE: &str = "three generated families: (fresh) N archives created with identical inputs (the same configuration, reached through 8 \
-different histories of enable / disable / set_layers calls in turn) in this process plus 8 worker processes x 64 archives: symmetric key, archive nonce, ephemeral public key and wrapped keys must be pairwise distinct over \
+different histories of enable / disable / set_layers calls in turn) in this process, then in 6 children forked from it at 3 different points of its history (no exec: they inherit whatever generator state the process holds) x 8 archives, plus 8 spawned worker processes x 64 archives: symmetric key, archive nonce, ephemeral public key and wrapped keys must be pairwise distinct over \
 all of them and every bit position of key / nonce / ephemeral key must be set in 35-65 % of the samples; (plaintext) \
 encrypted archives (encrypt, compress+encrypt with incompressible data) whose names and contents are unique high-entropy \
 markers, incl. flushes and piece sizes around the cipher buffer and the chunk: no 16-byte window of any content and no \
@@ -91,6 +91,84 @@ fn fresh(rep: &mut Report, ctx: &Ctx) {
             break;
         }
     }
+    // processes forked from this one after it has created archives (a pre-forking server): whatever generator state
+    // the library keeps in the process is duplicated by fork(), and the children must still draw different values.
+    // fresh() runs on the main thread before any worker thread exists, so the children may allocate.
+    let n_forks = 6usize;
+    let per_fork = 8usize;
+    let mut forked = 0u64;
+    let mut n_parent_extra = 0usize;
+    if fail.is_none() {
+        let mut pending: Vec<(libc::pid_t, libc::c_int)> = Vec::new();
+        for turn in 0..n_forks {
+            // the parent creates one more archive before every second fork: the children start from different points
+            // of whatever sequence the process holds (a generator that reseeds itself every N bytes hides the sharing
+            // when the fork falls exactly on such a boundary), and two consecutive children start from the same point
+            if turn % 2 == 0 {
+                if let Ok(Ok((k, n, e))) = util::catch(|| one_header(&keys.publics)) {
+                    samples.push((k.to_vec(), n.to_vec(), e.eph_pub.to_vec(), e.wrapped[0].0.to_vec()));
+                    n_parent_extra += 1;
+                }
+            }
+            let mut fds = [0 as libc::c_int; 2];
+            if unsafe { libc::pipe(fds.as_mut_ptr()) } != 0 {
+                break;
+            }
+            let pid = unsafe { libc::fork() };
+            if pid == 0 {
+                unsafe { libc::close(fds[0]) };
+                let mut out = String::new();
+                for _ in 0..per_fork {
+                    if let Ok(Ok((k, n, e))) = util::catch(|| one_header(&keys.publics)) {
+                        out.push_str(&format!("{} {} {} {}\n", hex::encode(k), hex::encode(n), hex::encode(e.eph_pub), hex::encode(e.wrapped[0].0)));
+                    }
+                }
+                let b = out.as_bytes();
+                let mut off = 0;
+                while off < b.len() {
+                    let w = unsafe { libc::write(fds[1], b[off..].as_ptr() as *const libc::c_void, b.len() - off) };
+                    if w <= 0 {
+                        break;
+                    }
+                    off += w as usize;
+                }
+                unsafe { libc::_exit(0) };
+            }
+            unsafe { libc::close(fds[1]) };
+            if pid > 0 {
+                pending.push((pid, fds[0]));
+            } else {
+                unsafe { libc::close(fds[0]) };
+            }
+        }
+        for (pid, fd) in pending {
+            // at most a few KiB per child: it fits the pipe, so the child never blocks; read until end of file
+            let mut text = Vec::new();
+            let mut buf = [0u8; 4096];
+            loop {
+                let r = unsafe { libc::read(fd, buf.as_mut_ptr() as *mut libc::c_void, buf.len()) };
+                if r <= 0 {
+                    break;
+                }
+                text.extend_from_slice(&buf[..r as usize]);
+            }
+            unsafe { libc::close(fd) };
+            let mut status = 0;
+            unsafe { libc::waitpid(pid, &mut status, 0) };
+            let before = samples.len();
+            for l in String::from_utf8_lossy(&text).lines() {
+                let p: Vec<Vec<u8>> = l.split(' ').filter_map(|x| hex::decode(x).ok()).collect();
+                if p.len() == 4 {
+                    samples.push((p[0].clone(), p[1].clone(), p[2].clone(), p[3].clone()));
+                }
+            }
+            forked += (samples.len() - before) as u64;
+            if samples.len() - before != per_fork {
+                rep.inconclusive = Some("a forked C07 child did not report its archives".into());
+            }
+        }
+    }
+    st.label_n("fresh:forked-children", forked);
     // other processes
     let exe = std::env::current_exe().expect("exe");
     let children: Vec<_> = (0..n_workers)
@@ -110,8 +188,9 @@ fn fresh(rep: &mut Report, ctx: &Ctx) {
         }
     }
     st.eval(samples.len() as u64);
+    let n_local = n_local + n_parent_extra;
     st.label_n("fresh:in-process", n_local as u64);
-    st.label_n("fresh:other-processes", (samples.len() - n_local.min(samples.len())) as u64);
+    st.label_n("fresh:other-processes", (samples.len() - n_local.min(samples.len())) as u64 - forked);
     if fail.is_none() {
         for (idx, what) in [(0usize, "symmetric key"), (1, "archive nonce"), (2, "ephemeral public key"), (3, "wrapped key")] {
             let mut seen: HashSet<&[u8]> = HashSet::new();
@@ -123,7 +202,7 @@ fn fresh(rep: &mut Report, ctx: &Ctx) {
                     _ => &s.3,
                 };
                 if !seen.insert(v) {
-                    fail = Some(format!("{what} repeated among {} archives created with identical inputs (sample {i}, {} in-process + worker processes): {}", samples.len(), n_local, hex::encode(v)));
+                    fail = Some(format!("{what} repeated among {} archives created with identical inputs (sample {i}, {} in-process + forked children + worker processes): {}", samples.len(), n_local, hex::encode(v)));
                     break;
                 }
             }
